@@ -273,23 +273,27 @@ theorem unprotect_protect_rtcp (S : Suite) (cs cr : Ctx) (pkt : Bytes) (hpair : 
   · rw [unprotect_rtcpWire S cs cr pkt _ hlen (by simpa using hidx) hpair.ssrc hpair.profile hpair.rtcp]
 
 /-- **E-bit and index layout** of a protected RTCP packet: the 32-bit word `E ‖ index` sits right
-before the tag (AES-CM/NULL) resp. at the very end (AEAD), with `E = 1`. -/
-theorem srtcp_index_layout (S : Suite) (c : Ctx) (pkt : Bytes) (index : Nat) (hidx : index < 2 ^ 31)
-    (hlen : 8 ≤ pkt.length) :
+before the tag (AES-CM/NULL) resp. at the very end (AEAD); `E = 1` exactly for the encrypting
+profiles (the NULL cipher sends SRTCP in clear with `E = 0`, like its SRTP). -/
+theorem srtcp_index_layout (S : Suite) (c : Ctx) (pkt : Bytes) (index : Nat) (hidx : index < 2 ^ 31) :
     let wire := rtcpWire S c pkt index
-    (c.profile = .gcm → last4 wire = index + 2 ^ 31) ∧
-    (c.profile ≠ .gcm → last4 (wire.take (wire.length - c.profile.rtcpTagLen)) = index + 2 ^ 31) := by
-  have hw : withEBit index = index + 2147483648 := by
-    have : index < 2147483648 := by simpa using hidx
-    simp [withEBit, this]
-  have hlt : index + 2147483648 < 4294967296 := by simp at hidx; omega
-  intro wire
+    let word := if c.profile = .null then index else index + 2 ^ 31
+    (c.profile = .gcm → last4 wire = word) ∧
+    (c.profile ≠ .gcm → last4 (wire.take (wire.length - c.profile.rtcpTagLen)) = word) := by
+  have hi : index < 2147483648 := by simpa using hidx
+  have hlt := (eWord_props c index hi).1
+  have hw : c.eWord index = if c.profile = .null then index else index + 2 ^ 31 := by
+    have : withEBit index = index + 2147483648 := by simp [withEBit, hi]
+    unfold Ctx.eWord Ctx.encrypts
+    cases hp : c.profile <;> simp [this]
+  intro wire word
+  simp only [word, ← hw]
   constructor
   · intro hg
-    simp only [wire, rtcpWire, hg, if_true, hw]
+    simp only [wire, rtcpWire, hg, if_true]
     exact last4_append_be32 _ _ hlt
   · intro hg
-    simp only [wire, rtcpWire, hg, if_false, hw]
+    simp only [wire, rtcpWire, hg, if_false]
     rw [List.length_append, rtcpTag_length S c _ hg, Nat.add_sub_cancel, List.take_left' rfl]
     exact last4_append_be32 _ _ hlt
 
